@@ -303,3 +303,299 @@ Proof.
   - rewrite aes_mc_id_30, aes_mc_id_31, aes_mc_id_32, aes_mc_id_33 by assumption.
     rewrite !N.lxor_0_l. reflexivity.
 Qed.
+
+(* ---- 16-byte states *)
+Local Opaque aes_gmul.
+
+Lemma aes_len16_inv (s : list N) : length s = 16%nat -> exists s0 s1 s2 s3 s4 s5 s6 s7 s8 s9 s10 s11 s12 s13 s14 s15, s = [s0; s1; s2; s3; s4; s5; s6; s7; s8; s9; s10; s11; s12; s13; s14; s15].
+Proof.
+  intros Hl. do 16 (destruct s as [|? s]; [simpl in Hl; lia|]). destruct s; [|simpl in Hl; lia].
+  do 16 eexists. reflexivity.
+Qed.
+
+Lemma aes_block_inv (s : list N) : aess_block s ->
+  exists s0 s1 s2 s3 s4 s5 s6 s7 s8 s9 s10 s11 s12 s13 s14 s15, s = [s0; s1; s2; s3; s4; s5; s6; s7; s8; s9; s10; s11; s12; s13; s14; s15] /\ s0 < 256 /\ s1 < 256 /\ s2 < 256 /\ s3 < 256 /\ s4 < 256 /\ s5 < 256 /\ s6 < 256 /\ s7 < 256 /\ s8 < 256 /\ s9 < 256 /\ s10 < 256 /\ s11 < 256 /\ s12 < 256 /\ s13 < 256 /\ s14 < 256 /\ s15 < 256.
+Proof.
+  intros [Hl Hb]. destruct (aes_len16_inv s Hl) as (s0 & s1 & s2 & s3 & s4 & s5 & s6 & s7 & s8 & s9 & s10 & s11 & s12 & s13 & s14 & s15 & ->).
+  exists s0, s1, s2, s3, s4, s5, s6, s7, s8, s9, s10, s11, s12, s13, s14, s15. split; [reflexivity|]. unfold aess_bytes in Hb.
+  repeat match goal with H : Forall _ (_ :: _) |- _ => inversion H; subst; clear H end.
+  repeat split; assumption.
+Qed.
+
+Lemma aes_block16 s0 s1 s2 s3 s4 s5 s6 s7 s8 s9 s10 s11 s12 s13 s14 s15 : s0 < 256 -> s1 < 256 -> s2 < 256 -> s3 < 256 -> s4 < 256 -> s5 < 256 -> s6 < 256 -> s7 < 256 -> s8 < 256 -> s9 < 256 -> s10 < 256 -> s11 < 256 -> s12 < 256 -> s13 < 256 -> s14 < 256 -> s15 < 256 -> aess_block [s0; s1; s2; s3; s4; s5; s6; s7; s8; s9; s10; s11; s12; s13; s14; s15].
+Proof. intros. split; [reflexivity | unfold aess_bytes; repeat constructor; assumption]. Qed.
+
+Ltac aes_open_block H :=
+  let B := fresh "B" in
+  destruct (aes_block_inv _ H) as (s0 & s1 & s2 & s3 & s4 & s5 & s6 & s7 & s8 & s9 & s10 & s11 & s12 & s13 & s14 & s15 & -> & B); decompose [and] B; clear B.
+
+Lemma aes_shift_rows_inv s : length s = 16%nat -> aes_inv_shift_rows (aes_shift_rows s) = s.
+Proof. intros Hl. destruct (aes_len16_inv s Hl) as (s0 & s1 & s2 & s3 & s4 & s5 & s6 & s7 & s8 & s9 & s10 & s11 & s12 & s13 & s14 & s15 & ->). reflexivity. Qed.
+
+Lemma aes_shift_rows_block s : aess_block s -> aess_block (aes_shift_rows s).
+Proof. intros H. aes_open_block H. apply aes_block16; assumption. Qed.
+
+Lemma aes_inv_shift_rows_block s : aess_block s -> aess_block (aes_inv_shift_rows s).
+Proof. intros H. aes_open_block H. apply aes_block16; assumption. Qed.
+
+Lemma aes_sub_bytes_inv s : aess_bytes s -> aes_inv_sub_bytes (aes_sub_bytes s) = s.
+Proof.
+  unfold aess_bytes, aes_inv_sub_bytes, aes_sub_bytes. intros H.
+  induction H as [|x l Hx Hl IH]; [reflexivity|]. cbn [map]. rewrite aes_isub_sub by exact Hx. rewrite IH. reflexivity.
+Qed.
+
+Lemma aes_sub_bytes_block s : aess_block s -> aess_block (aes_sub_bytes s).
+Proof.
+  intros [Hl Hb]. split; [unfold aes_sub_bytes; rewrite map_length; exact Hl|].
+  clear Hl. unfold aess_bytes, aes_sub_bytes in *. induction Hb as [|x l Hx Hb IH]; cbn [map]; constructor.
+  - apply aes_sub_byte, Hx.
+  - exact IH.
+Qed.
+
+Lemma aes_inv_sub_bytes_block s : aess_block s -> aess_block (aes_inv_sub_bytes s).
+Proof.
+  intros [Hl Hb]. split; [unfold aes_inv_sub_bytes; rewrite map_length; exact Hl|].
+  clear Hl. unfold aess_bytes, aes_inv_sub_bytes in *. induction Hb as [|x l Hx Hb IH]; cbn [map]; constructor.
+  - apply aes_isub_byte, Hx.
+  - exact IH.
+Qed.
+
+Lemma aes_mix_columns_inv s : aess_block s -> aes_inv_mix_columns (aes_mix_columns s) = s.
+Proof.
+  intros H. aes_open_block H.
+  cbv beta iota delta [aes_mix_columns aes_mix_column app aes_inv_mix_columns].
+  rewrite !aes_mix_column_inv by assumption. reflexivity.
+Qed.
+
+Lemma aes_mix_columns_block s : aess_block s -> aess_block (aes_mix_columns s).
+Proof.
+  intros H. aes_open_block H.
+  cbv beta iota delta [aes_mix_columns aes_mix_column app].
+  apply aes_block16; aes_byte_tac.
+Qed.
+
+Lemma aes_inv_mix_columns_block s : aess_block s -> aess_block (aes_inv_mix_columns s).
+Proof.
+  intros H. aes_open_block H.
+  cbv beta iota delta [aes_inv_mix_columns aes_inv_mix_column app].
+  apply aes_block16; aes_byte_tac.
+Qed.
+
+(* ---- rounds *)
+Lemma aes_round_block rk s : aess_block rk -> aess_block s -> aess_block (aes_round rk s).
+Proof.
+  intros Hk Hs. unfold aes_round.
+  apply aes_xor_block; [|exact Hk]. apply aes_mix_columns_block, aes_shift_rows_block, aes_sub_bytes_block, Hs.
+Qed.
+
+Lemma aes_xor_block_cancel s rk : aess_block s -> aess_block rk -> aes_xor_bytes (aes_xor_bytes s rk) rk = s.
+Proof. intros [Hs _] [Hk _]. apply aes_xor_bytes_cancel. lia. Qed.
+
+(* InvShiftRows; InvSubBytes; AddRoundKey; InvMixColumns undoes SubBytes; ShiftRows; MixColumns; AddRoundKey
+   up to the following SubBytes; ShiftRows *)
+Lemma aes_inv_round_step rk s :
+  aess_block rk -> aess_block s ->
+  aes_inv_round rk (aes_shift_rows (aes_sub_bytes (aes_round rk s))) = aes_shift_rows (aes_sub_bytes s).
+Proof.
+  intros Hk Hs. pose proof (aes_round_block rk s Hk Hs) as Hr. unfold aes_inv_round.
+  rewrite aes_shift_rows_inv by (apply aes_sub_bytes_block, Hr).
+  rewrite aes_sub_bytes_inv by (apply Hr).
+  unfold aes_round.
+  assert (Hm : aess_block (aes_mix_columns (aes_shift_rows (aes_sub_bytes s))))
+    by (apply aes_mix_columns_block, aes_shift_rows_block, aes_sub_bytes_block, Hs).
+  rewrite aes_xor_block_cancel by assumption.
+  apply aes_mix_columns_inv, aes_shift_rows_block, aes_sub_bytes_block, Hs.
+Qed.
+
+Lemma aes_enc_rounds_block mid s :
+  Forall aess_block mid -> aess_block s -> aess_block (aes_enc_rounds mid s).
+Proof.
+  intros Hm. revert s. induction Hm as [|rk m Hk Hm IH]; intros s Hs; cbn [aes_enc_rounds]; [exact Hs|].
+  apply IH, aes_round_block; assumption.
+Qed.
+
+Lemma aes_dec_enc_rounds mid s :
+  Forall aess_block mid -> aess_block s ->
+  aes_dec_rounds mid (aes_shift_rows (aes_sub_bytes (aes_enc_rounds mid s))) =
+  aes_shift_rows (aes_sub_bytes s).
+Proof.
+  intros Hm. revert s. induction Hm as [|rk m Hk Hm IH]; intros s Hs; cbn [aes_enc_rounds aes_dec_rounds]; [reflexivity|].
+  rewrite IH by (apply aes_round_block; assumption).
+  apply aes_inv_round_step; assumption.
+Qed.
+
+Lemma aes_cipher3_block rk0 mid rkl b :
+  aess_block rk0 -> Forall aess_block mid -> aess_block rkl -> aess_block b ->
+  aess_block (aes_cipher3 rk0 mid rkl b).
+Proof.
+  intros H0 Hm Hl Hb. unfold aes_cipher3, aes_final_round.
+  apply aes_xor_block; [|exact Hl].
+  apply aes_shift_rows_block, aes_sub_bytes_block, aes_enc_rounds_block; [exact Hm|].
+  apply aes_xor_block; assumption.
+Qed.
+
+Lemma aes_inv_cipher3_cipher3 rk0 mid rkl b :
+  aess_block rk0 -> Forall aess_block mid -> aess_block rkl -> aess_block b ->
+  aes_inv_cipher3 rk0 mid rkl (aes_cipher3 rk0 mid rkl b) = b.
+Proof.
+  intros H0 Hm Hl Hb. unfold aes_inv_cipher3, aes_cipher3, aes_final_round.
+  assert (Hs0 : aess_block (aes_xor_bytes b rk0)) by (apply aes_xor_block; assumption).
+  pose proof (aes_enc_rounds_block mid _ Hm Hs0) as He.
+  rewrite aes_xor_block_cancel; [|apply aes_shift_rows_block, aes_sub_bytes_block, He | exact Hl].
+  rewrite aes_dec_enc_rounds by assumption.
+  rewrite aes_shift_rows_inv by (apply aes_sub_bytes_block, Hs0).
+  rewrite aes_sub_bytes_inv by (apply Hs0).
+  apply aes_xor_block_cancel; assumption.
+Qed.
+
+(* ---- key schedule: every round key of a 16/24/32-byte key is a 16-byte block *)
+Definition aes_word_ok (w : list N) : Prop := length w = 4%nat /\ aess_bytes w.
+
+Lemma aes_nth_ok {A} (P : A -> Prop) (l : list A) d n : Forall P l -> P d -> P (nth n l d).
+Proof. intros Hl Hd. revert n. induction Hl; intros [|n]; simpl; auto. Qed.
+
+Lemma aes_map_sub_bytes l : aess_bytes l -> aess_bytes (map aes_sub l).
+Proof.
+  unfold aess_bytes. intros H. induction H as [|x l Hx Hl IH]; cbn [map]; constructor; [apply aes_sub_byte, Hx | exact IH].
+Qed.
+
+Lemma aes_xor_word a b : aes_word_ok a -> aes_word_ok b -> aes_word_ok (aes_xor_bytes a b).
+Proof.
+  intros [La Ba] [Lb Bb]. split; [rewrite aes_xor_bytes_length, La, Lb; reflexivity | apply aes_xor_bytes_bytes; assumption].
+Qed.
+
+Lemma aes_sub_word_ok w : aes_word_ok w -> aes_word_ok (aes_sub_word w).
+Proof.
+  intros [L B]. split; [unfold aes_sub_word; rewrite map_length; exact L | apply aes_map_sub_bytes, B].
+Qed.
+
+Lemma aes_rot_word_ok w : aes_word_ok w -> aes_word_ok (aes_rot_word w).
+Proof.
+  intros [L B]. do 4 (destruct w as [|? w]; [simpl in L; lia|]). destruct w; [|simpl in L; lia].
+  unfold aess_bytes in B.
+  repeat match goal with H : Forall _ (_ :: _) |- _ => inversion H; subst; clear H end.
+  split; [reflexivity | unfold aess_bytes; repeat constructor; assumption].
+Qed.
+
+Lemma aes_rcon_word_ok rc : rc < 256 -> aes_word_ok [rc; 0; 0; 0].
+Proof. intros H. split; [reflexivity | unfold aess_bytes; repeat constructor; assumption]. Qed.
+
+Lemma aes_zero_word_ok : aes_word_ok aes_zero_word.
+Proof. split; [reflexivity | unfold aess_bytes, aes_zero_word; repeat constructor]. Qed.
+
+Lemma aes_expand_ok n nk i rc rw :
+  rc < 256 -> Forall aes_word_ok rw -> Forall aes_word_ok (aes_expand n nk i rc rw).
+Proof.
+  revert i rc rw. induction n as [|n IH]; intros i rc rw Hrc Hrw; cbn [aes_expand]; [exact Hrw|].
+  pose proof (aes_nth_ok _ rw aes_zero_word 0 Hrw aes_zero_word_ok) as Hprev.
+  pose proof (aes_nth_ok _ rw aes_zero_word (nk - 1) Hrw aes_zero_word_ok) as Hback.
+  destruct (i mod nk =? 0)%nat.
+  - apply IH; [apply aes_xtime_byte, Hrc|]. constructor; [|exact Hrw].
+    apply aes_xor_word; [exact Hback|]. apply aes_xor_word; [|apply aes_rcon_word_ok, Hrc].
+    apply aes_sub_word_ok, aes_rot_word_ok, Hprev.
+  - destruct ((6 <? nk)%nat && (i mod nk =? 4)%nat).
+    + apply IH; [exact Hrc|]. constructor; [|exact Hrw].
+      apply aes_xor_word; [exact Hback | apply aes_sub_word_ok, Hprev].
+    + apply IH; [exact Hrc|]. constructor; [|exact Hrw]. apply aes_xor_word; assumption.
+Qed.
+
+Lemma aes_expand_length n nk i rc rw : length (aes_expand n nk i rc rw) = (n + length rw)%nat.
+Proof.
+  revert i rc rw. induction n as [|n IH]; intros i rc rw; cbn [aes_expand]; [reflexivity|].
+  destruct (i mod nk =? 0)%nat; [|destruct ((6 <? nk)%nat && (i mod nk =? 4)%nat)];
+    rewrite IH; cbn [length]; lia.
+Qed.
+
+Lemma aes_words_ok nk key :
+  length key = (4 * nk)%nat -> aess_bytes key ->
+  Forall aes_word_ok (aes_words nk key) /\ length (aes_words nk key) = nk.
+Proof.
+  revert key. induction nk as [|nk IH]; intros key Hl Hb; cbn [aes_words]; [split; [constructor | reflexivity]|].
+  destruct (IH (skipn 4 key)) as [I1 I2]; [rewrite skipn_length; lia | apply aes_bytes_skipn, Hb|].
+  split; [|cbn [length]; rewrite I2; reflexivity].
+  constructor; [|exact I1]. split; [rewrite firstn_length; lia | apply aes_bytes_firstn, Hb].
+Qed.
+
+Lemma aes_concat_words ws :
+  Forall aes_word_ok ws -> aess_bytes (concat ws) /\ length (concat ws) = (4 * length ws)%nat.
+Proof.
+  intros H. induction H as [|w ws [Lw Bw] Hws [I1 I2]]; cbn [concat]; [split; [constructor | reflexivity]|].
+  split; [apply aes_bytes_app; split; assumption | rewrite app_length, Lw, I2; cbn [length]; lia].
+Qed.
+
+Lemma aes_blocks_ok m l :
+  length l = (16 * m)%nat -> aess_bytes l ->
+  Forall aess_block (aes_blocks m l) /\ length (aes_blocks m l) = m.
+Proof.
+  revert l. induction m as [|m IH]; intros l Hl Hb; cbn [aes_blocks]; [split; [constructor | reflexivity]|].
+  destruct (IH (skipn 16 l)) as [I1 I2]; [rewrite skipn_length; lia | apply aes_bytes_skipn, Hb|].
+  split; [|cbn [length]; rewrite I2; reflexivity].
+  constructor; [|exact I1]. split; [rewrite firstn_length; lia | apply aes_bytes_firstn, Hb].
+Qed.
+
+Lemma aes_valid_key_len_inv n : aes_valid_key_len n = true -> n = 16%nat \/ n = 24%nat \/ n = 32%nat.
+Proof.
+  unfold aes_valid_key_len. intros H. apply orb_true_iff in H. destruct H as [H | H].
+  - apply orb_true_iff in H. destruct H as [H | H]; apply Nat.eqb_eq in H; auto.
+  - apply Nat.eqb_eq in H; auto.
+Qed.
+
+Lemma aes_key_schedule_ok key :
+  aes_valid_key_len (length key) = true -> aess_bytes key ->
+  Forall aess_block (aes_key_schedule key) /\
+  length (aes_key_schedule key) = (length key / 4 + 7)%nat.
+Proof.
+  intros Hv Hb. apply aes_valid_key_len_inv in Hv.
+  set (nk := (length key / 4)%nat).
+  assert (Hnk : length key = (4 * nk)%nat /\ (1 <= nk)%nat) by (unfold nk; lia).
+  destruct Hnk as [Hl Hpos]. unfold aes_key_schedule. fold nk.
+  destruct (aes_words_ok nk key Hl Hb) as [W1 W2].
+  set (n := (4 * (nk + 6 + 1) - nk)%nat).
+  set (ws := rev (aes_expand n nk nk 1 (rev (aes_words nk key)))).
+  assert (Hws : Forall aes_word_ok ws).
+  { unfold ws. apply Forall_rev, aes_expand_ok; [reflexivity | apply Forall_rev, W1]. }
+  assert (Hwl : length ws = (4 * (nk + 6 + 1))%nat).
+  { unfold ws. rewrite rev_length, aes_expand_length, rev_length, W2. unfold n. lia. }
+  destruct (aes_concat_words ws Hws) as [C1 C2].
+  destruct (aes_blocks_ok (nk + 6 + 1) (concat ws)) as [B1 B2]; [rewrite C2, Hwl; lia | exact C1|].
+  split; [exact B1 | rewrite B2; lia].
+Qed.
+
+(* ---- aes_inv_cipher inverts aes_cipher for the round keys of every legal key *)
+Lemma aes_round_keys_split (rks : list (list N)) :
+  Forall aess_block rks -> (2 <= length rks)%nat ->
+  exists rk0 rest, rks = rk0 :: rest /\ aess_block rk0 /\
+                   Forall aess_block (removelast rest) /\ aess_block (last rest []).
+Proof.
+  intros H Hl. destruct rks as [|rk0 rest]; [simpl in Hl; lia|].
+  inversion H as [|? ? H0 Hr]; subst. exists rk0, rest. split; [reflexivity|]. split; [exact H0|].
+  assert (Hne : rest <> []) by (destruct rest; [simpl in Hl; lia | discriminate]).
+  rewrite (app_removelast_last [] Hne) in Hr. apply Forall_app in Hr. destruct Hr as [Hm Hlast].
+  split; [exact Hm|]. inversion Hlast; assumption.
+Qed.
+
+Lemma aes_cipher_block key b :
+  aes_valid_key_len (length key) = true -> aess_bytes key -> aess_block b ->
+  aess_block (aes_cipher (aes_key_schedule key) b).
+Proof.
+  intros Hv Hk Hb. destruct (aes_key_schedule_ok key Hv Hk) as [K1 K2].
+  destruct (aes_round_keys_split _ K1 ltac:(lia)) as (rk0 & rest & -> & H0 & Hm & Hl).
+  cbn [aes_cipher]. apply aes_cipher3_block; assumption.
+Qed.
+
+Lemma aes_inv_cipher_cipher key b :
+  aes_valid_key_len (length key) = true -> aess_bytes key -> aess_block b ->
+  aes_inv_cipher (aes_key_schedule key) (aes_cipher (aes_key_schedule key) b) = b.
+Proof.
+  intros Hv Hk Hb. destruct (aes_key_schedule_ok key Hv Hk) as [K1 K2].
+  destruct (aes_round_keys_split _ K1 ltac:(lia)) as (rk0 & rest & -> & H0 & Hm & Hl).
+  cbn [aes_cipher aes_inv_cipher]. apply aes_inv_cipher3_cipher3; assumption.
+Qed.
+
+Lemma aes_block_roundtrip key b :
+  aes_valid_key_len (length key) = true -> aess_bytes key -> aess_block b ->
+  aes_decrypt_block key (aes_encrypt_block key b) = b /\ aess_block (aes_encrypt_block key b).
+Proof.
+  intros Hv Hk Hb. unfold aes_decrypt_block, aes_encrypt_block.
+  split; [apply aes_inv_cipher_cipher | apply aes_cipher_block]; assumption.
+Qed.
